@@ -460,11 +460,61 @@ fn ref_part(ctx: &mut Ctx) {
     }
 }
 
+/// references made before and after `Node::start` (which adopts the creation EPMD assigns): all pairwise distinct as
+/// (creation, words), each carrying the creation in force when it was made. The placeholder creation of a node that has not
+/// started is 1, and an EPMD may well assign 1: then only the words tell the references apart.
+fn ref_start_part(ctx: &mut Ctx) {
+    let rt = tokio::runtime::Builder::new_current_thread().enable_all().build().unwrap();
+    rt.block_on(async {
+        let epmd = crate::peer::FakeEpmd::start().await;
+        for (case, creation) in [1u32, 1, 7, 2, u32::MAX, 1].into_iter().enumerate() {
+            // the stand-in hands out its counter + 1
+            *epmd.creation.lock().unwrap() = creation - 1;
+            let before = if case == 1 { 0 } else { 1 + ctx.rng.below(5) as usize };
+            let after = 1 + ctx.rng.below(6) as usize;
+            let mut node = edp_node::Node::new(format!("c16s{}@127.0.0.1", case), "cookie");
+            let mut made: Vec<(String, u32)> = vec![];
+            for _ in 0..before {
+                made.push((ref_text(&node.make_reference()), 1));
+            }
+            if let Err(e) = node.start(0).await {
+                ctx.fail("c16-start", &format!("Node::start against the scripted EPMD failed: {}", e));
+                continue;
+            }
+            for _ in 0..after {
+                made.push((ref_text(&node.make_reference()), creation));
+            }
+            ctx.count("ref_across_start_cases");
+            ctx.add("ref_across_start_calls", made.len() as u64);
+            let texts: Vec<&String> = made.iter().map(|m| &m.0).collect();
+            for (i, (t, want)) in made.iter().enumerate() {
+                let got: u32 = t.split(':').next().unwrap().parse().unwrap();
+                if got != *want {
+                    ctx.fail("c16-ref-creation", &format!("reference #{} {} made {} start (EPMD creation {}) carries creation {} instead of {}", i, t, if i < before { "before" } else { "after" }, creation, got, want));
+                }
+                if texts[..i].contains(&t) {
+                    ctx.fail("c16-dup-ref", &format!("EPMD creation {}: {} references before start, {} after: reference #{} {} was handed out before: {:?}", creation, before, after, i, t, texts));
+                }
+            }
+            let join = |v: &[&String]| v.iter().map(|s| s.as_str()).collect::<Vec<_>>().join(",");
+            if creation == 1 {
+                ctx.prop("gen", &format!("c16refuniq 1 {}", join(&texts)), "ok");
+            } else {
+                if before > 0 {
+                    ctx.prop("gen", &format!("c16refuniq 1 {}", join(&texts[..before])), "ok");
+                }
+                ctx.prop("gen", &format!("c16refuniq {} {}", creation, join(&texts[before..])), "ok");
+            }
+        }
+    });
+}
+
 pub fn run(ctx: &mut Ctx) {
     seq_part(ctx);
     epoch_windows(ctx);
     ops_part(ctx);
     thread_part(ctx);
     ref_part(ctx);
+    ref_start_part(ctx);
     crate::c16_sched::run(ctx);
 }
